@@ -100,6 +100,7 @@ def modelObs (v : DV) (op : String) : Option String :=
   | ["tobits", p] => p.toNat?.map fun p => showRes showBinary (toBitsOp 1 p false v)
   | ["tobytes", p] => p.toNat?.map fun p => showRes showBinary (toBitsOp 8 p false v)
   | ["fmt", f, sb] => sb.toNat?.map fun sb => showRes showRendered (toValueRaw f sb v)
+  | ["ufmt", f, sb] => sb.toNat?.map fun sb => showRes showRendered (toValueRaw f sb v)
   | ["rfmt8", f, sb] => sb.toNat?.map fun sb => showRes showRendered (toValueRange 8 f sb v)
   | ["rfmt1", f, sb] => sb.toNat?.map fun sb => showRes showRendered (toValueRange 1 f sb v)
   | ["stdout"] => some (showRes (fun b => s!"o:{hexOrDash b}") (rawStdoutToBytes v))
@@ -209,6 +210,7 @@ def checkProp (vb : Bits) (op obs : String) : Except String Unit :=
   | ["tobits", p] => match p.toNat? with | some p => bin 1 p | none => .error "bad p"
   | ["tobytes", p] => match p.toNat? with | some p => bin 8 p | none => .error "bad p"
   | ["fmt", f, sb] => match sb.toNat? with | some sb => checkRender f sb vb obs | none => .error "bad sb"
+  | ["ufmt", f, sb] => match sb.toNat? with | some sb => checkRender f sb vb obs | none => .error "bad sb"
   | ["rfmt8", f, sb] =>
     match sb.toNat? with
     | some sb => checkRender f sb (List.replicate ((8 - vb.length % 8) % 8) false ++ vb) obs
@@ -241,7 +243,7 @@ def step (op obs : String) : String :=
         -- bytes", which is what the model computes from the same bits (Props.C05.render_of_tobits,
         -- md5_of_string) — computed once, not twice, because inputs can be > 1 MiB
         let isMd5 := match o.splitOn ":" with
-          | [k, "md5", _] => k == "fmt" || k == "rfmt8" || k == "rfmt1"
+          | [k, "md5", _] => k == "fmt" || k == "ufmt" || k == "rfmt8" || k == "rfmt1"
           | _ => false
         let p : Except String Unit :=
           if topBad then .error "the top value is not the whole input"
